@@ -1,4 +1,5 @@
 import Pycoin.Proofs.NativePure
+import Pycoin.Proofs.NativeSecpPure
 import Pycoin.Proofs.CurveFacts.secp256k1
 import Pycoin.Proofs.CurveFacts.secp256r1
 import Pycoin.Proofs.CurveFacts.Order
@@ -28,5 +29,8 @@ theorem pureLib_ok_secp256k1 : LibCryptoOk (pureLib secp256k1) secp256k1 :=
 
 theorem pureLib_ok_secp256r1 : LibCryptoOk (pureLib secp256r1) secp256r1 :=
   pureLib_ok secp256r1 (by decide +kernel) (fun _ _ => order_all_secp256r1 _)
+
+theorem pureSecp_ok_secp256k1 : LibSecpOk (pureSecp secp256k1) secp256k1 :=
+  pureSecp_ok secp256k1 ecdsaOk_secp256k1 (by decide +kernel) (fun _ _ => order_all_secp256k1 _)
 
 end Pycoin.Native
